@@ -28,7 +28,7 @@ COMPOSE_MIN_THEOREMS = 11
 EXTRA_MODULES = [('MpVerif.C01.PropsCompose', 'MpVerif/C01/PropsCompose.lean', COMPOSE_MIN_THEOREMS),
                  ('MpVerif.C01.PropsCtxGen', 'MpVerif/C01/PropsCtxGen.lean', 11),
                  ('MpVerif.C01.PropsObjective', 'MpVerif/C01/PropsObjective.lean', 9),
-                 ('MpVerif.C01.PropsGenTie', 'MpVerif/C01/PropsGenTie.lean', 31),
+                 ('MpVerif.C01.PropsGenTie', 'MpVerif/C01/PropsGenTie.lean', 32),
                  # round 5: the reference converter is correct (C01_convert_equiv / _objective)
                  ('MpVerif.C01.PropsConvert', 'MpVerif/C01/PropsConvert.lean', 5),
                  # statement audit (round 4): non-vacuity instances only, no C01_ theorems of its own
